@@ -22,10 +22,11 @@ type c08Cell struct {
 	Backend  string `json:"backend"`
 	Batch    string `json:"batch"` // none | expireall | deleteall | cleanup | evict | walk
 	Strategy int    `json:"strategy"`
-	A        []int  `json:"a"`           // thread A program (op indices)
-	NB       int    `json:"nb"`          // length of thread B programs enumerated inside the cell
-	C        bool   `json:"c,omitempty"` // a third single-op thread is enumerated too
+	A        []int  `json:"a"`             // thread A program (op indices)
+	NB       int    `json:"nb"`            // length of thread B programs enumerated inside the cell
+	C        bool   `json:"c,omitempty"`   // a third single-op thread is enumerated too
 	Unb      bool   `json:"unb,omitempty"` // all interleavings (unbounded, HB cached) instead of preemption bound 2
+	Unl      bool   `json:"unl,omitempty"` // the cache is configured with UnlimitedTTL (entries never expire on their own)
 }
 
 func (c c08Cell) id() string { js, _ := json.Marshal(c); return string(js) }
@@ -79,6 +80,16 @@ func c08Cells(tier string) []Cell {
 				}
 
 				cells = append(cells, Cell{ID: c.id()})
+			}
+		}
+	}
+
+	// UnlimitedTTL configuration: ExpireAll must act on never-expiring entries too, the delete-expired job only on
+	// the entry that got a per-call TTL (appended so that the indices of the older cells stay what they were)
+	for _, b := range backendKinds {
+		for _, bt := range []string{"expireall", "cleanup"} {
+			for _, a := range c08Progs(2) {
+				cells = append(cells, Cell{ID: c08Cell{Backend: b, Batch: bt, A: a, NB: 1, Unl: true, Unb: tier == "thorough"}.id()})
 			}
 		}
 	}
@@ -343,6 +354,10 @@ func c08Run(c Cell, env *Env) CellResult {
 	keys := sameShardKeys()
 
 	cfg := cache.Config{Name: "c08", ExpirationJitter: -1, TimeToLive: 5 * time.Minute, EvictionStrategy: cache.EvictionStrategy(cc.Strategy)}
+	if cc.Unl {
+		cfg.TimeToLive = cache.UnlimitedTTL
+	}
+
 	if cc.Batch == "evict" {
 		cfg.EvictionNeeded = func() bool { return true }
 		cfg.EvictFraction = 1
@@ -425,7 +440,12 @@ func c08Run(c Cell, env *Env) CellResult {
 			var vs []Violation
 
 			bad := func(kind, detail string) {
-				vs = append(vs, Violation{Signature: fmt.Sprintf("C08 %s batch=%s %s", cc.Backend, cc.Batch, kind), Detail: detail})
+				ttl := ""
+				if cc.Unl {
+					ttl = " ttl=unlimited"
+				}
+
+				vs = append(vs, Violation{Signature: fmt.Sprintf("C08 %s batch=%s%s %s", cc.Backend, cc.Batch, ttl, kind), Detail: detail})
 			}
 
 			if r.Deadlock || r.Panic != nil {
@@ -495,7 +515,7 @@ func c08Run(c Cell, env *Env) CellResult {
 					seenSig[v.Signature] = true
 					v.Choices = r.Choices()
 					mustReproduce(v.Signature, v.Choices, body, check)
-				mustReproduce(v.Signature, v.Choices, body, check)
+					mustReproduce(v.Signature, v.Choices, body, check)
 					v.Extra, _ = json.Marshal(pi)
 					v.Detail += fmt.Sprintf("\n  program: A=%v B=%v C=%v batch=%s", opNames(cc.A), opNames(p.b), opNames(p.c), cc.Batch)
 					res.Violations = append(res.Violations, v)
@@ -592,7 +612,7 @@ func init() {
 		Cells: c08Cells, Run: c08Run,
 		Rule: "client programs: thread A = every sequence of 1-2 operations over {Write,Read,Delete} x {k0,k1}, thread B = every sequence of 1 (quick) / 1-2 (thorough) operations, optional third single-operation thread (thorough), " +
 			"preemption bound 2 with happens-before caching; thorough additionally runs the quick programs with ALL interleavings; " +
-			"plus one batch thread from {ExpireAll, DeleteAll, cleanup (delete-expired), eviction under MostExpired/LRU/LFU, Walk under MostExpired/LRU}; k0,k1 live in the same shard; 3 backends; " +
+			"plus one batch thread from {ExpireAll, DeleteAll, cleanup (delete-expired), eviction under MostExpired/LRU/LFU, Walk under MostExpired/LRU}; k0,k1 live in the same shard; 3 backends; the ExpireAll and cleanup cells once more on a cache configured with UnlimitedTTL; " +
 			"all schedules within the bound; each per-key history (invocation/response stamped by a logical clock, batch calls as one pseudo-operation per key spanning the call, every Walk report as a read-like pseudo-operation) " +
 			"is checked with porcupine against a nondeterministic register-with-expiry model; an entry nobody touches must be visited exactly once by every Walk",
 		Assumptions: []string{
